@@ -131,10 +131,12 @@ def install_probe():
         w = shim.W()
         if w is not None and data:
             w.__dict__.setdefault("c12_channels", {})[id(self)] = self
+        # the size of this write as handed over (a file_wrapper buffer shrinks as it is sent)
+        size0 = len(data) if data else 0
         n = orig_write_soon(self, data)
-        if w is not None and data:
+        if w is not None and size0:
             st = w.__dict__.setdefault("c12", {"interims": 0, "max_pending": 0, "max_write": 0, "viol": None, "samples": 0})
-            size = len(data)
+            size = size0
             pending = self.total_outbufs_len
             st["samples"] += 1
             st["max_pending"] = max(st["max_pending"], pending)
